@@ -291,8 +291,20 @@ func runC17(c *Ctx) {
 			}
 		}
 		c.Ob("C17-R3", "doProtoHandshake enables snappy only after the hello writer has finished", c.FnPos(phs), okSnappy, fmt.Sprintf("%d stores to rw.snappy, %d channel receives", len(stores), len(recvs)))
+		// the dialing side derives the session secrets from the remote's ephemeral key: handleAuthResp accepts only if that
+		// key parsed (a nil key is dereferenced by secrets() in a goroutine without recover)
+		ar := c.Fn("p2p:(*encHandshake).handleAuthResp")
+		c.MustOnAccept("C17-R3", ar, -1, false, []LitReq{
+			{Name: "handleAuthResp accepts only a parsable ephemeral public key", Re: `^p2p\.importPublicKey\(authRespV4#0\.RandomPubkey\[:\]\)#1 == nil$`},
+		})
+		// a message code is dispatched to the one protocol whose half-open range [offset, offset+Length) contains it
+		gp := c.Fn("p2p:(*Peer).getProto")
+		c.MustOnAccept("C17-R3", gp, -1, false, []LitReq{
+			{Name: "getProto: code >= offset of the selected protocol", Re: `^uint64#0 >= .*\.offset$`},
+			{Name: "getProto: code < offset + Length of the selected protocol (exclusive upper bound)", Re: `^uint64#0 < \(.*\.offset \+ .*\.Length\)$`},
+		})
 	})
-	c.Min("C17-R3", 13)
+	c.Min("C17-R3", 16)
 
 	c.Rule("C17-R4", "decode errors are never swallowed: no accepting path of a message handler carries a failed decode", func() {
 		for _, spec := range []string{"aqua:(*ProtocolManager).handleMsg", "p2p:(*rlpxFrameRW).ReadMsg", "p2p/discover:decodePacket"} {
